@@ -223,6 +223,8 @@ type caseSpec struct {
 	// either fixed lengths (corpus) or generated from the writer's position
 	fixed   [][]int
 	isFixed bool
+	hiFill  bool  // first record: 0xFF payload (or incompressible bytes with 0xFF at the indices in stale)
+	stale   []int // payload indices of the first record forced to 0xFF
 	small   bool // only small records: no page is ever filled
 	corpus  string
 }
@@ -238,6 +240,7 @@ type desc struct {
 	Corpus  string  `json:"corpus,omitempty"`
 	Seed    uint64  `json:"seed"`
 	Index   int     `json:"index"`
+	Stale   int     `json:"stale_high_header_cuts"`
 }
 
 func comprN(c compression.Type) int {
@@ -278,16 +281,19 @@ func genRecord(r *gen.Rand, n int, c compression.Type, exact bool) []byte {
 	case 2:
 		return make([]byte, n) // all zero bytes: looks like page padding
 	default:
+		if r.Chance(2, 3) { // high bytes: what a LiveReader's page buffer keeps from the previous page
+			return bytes.Repeat([]byte{byte(0x80 + r.Intn(128))}, n)
+		}
 		return bytes.Repeat([]byte{byte(1 + r.Intn(255))}, n)
 	}
 }
 
-var cutNames = []string{"flush", "random", "headers", "pages", "bytewise", "whole"}
+var cutNames = []string{"flush", "random", "headers", "pages", "bytewise", "whole", "hdr-prefix"}
 
 func main() {
 	f := gallina.ParseFlags()
 	meta := gallina.NewMeta("C13", f.Seed, f.Tier)
-	meta.Rule = "one case = one real WAL directory written by wlog.WL.Log and read by wlog.Reader and wlog.LiveReader; fixed corpus of boundary layouts first, then logs generated from the writer's own position (LastSegmentAndOffset): record lengths aimed at page remainder -8..+2, segment remainder -1..+1, k pages -1..+1, larger than a segment, plus small/medium records, x compression {none,snappy,zstd} x pagesPerSegment {1,2,3,4} x close/no close x 6 release patterns for the live reader; non-trivial = the log has a record split into fragments, a zero-padded page or more than one segment; distinct by (compression, pps, batch record lengths, cut pattern)"
+	meta.Rule = "one case = one real WAL directory written by wlog.WL.Log and read by wlog.Reader and wlog.LiveReader; fixed corpus of boundary layouts first, then logs generated from the writer's own position (LastSegmentAndOffset): record lengths aimed at page remainder -8..+2, segment remainder -1..+1, k pages -1..+1, larger than a segment, plus small/medium records, x compression {none,snappy,zstd} x pagesPerSegment {1,2,3,4} x close/no close x 7 release patterns for the live reader (incl. 1..6 bytes into every fragment header, with previous-page payloads of 0xFF / high bytes); non-trivial = the log has a record split into fragments, a zero-padded page or more than one segment; distinct by (compression, pps, batch record lengths, cut pattern)"
 	cf := &gallina.CaseFile{Dir: f.Out, Type: "case", PerShard: 8,
 		Preamble: "From Coq Require Import List ZArith NArith.\nFrom Verif Require Import model.Wal corr.CorrC13.\nImport ListNotations.\nOpen Scope Z_scope.\n",
 		Footer:   gallina.StdFooter}
@@ -357,10 +363,24 @@ func main() {
 			batchesG = append(batchesG, gallina.List(it))
 		}
 		if cs.isFixed {
-			for _, bl := range cs.fixed {
+			for bi, bl := range cs.fixed {
 				var b [][]byte
-				for _, n := range bl {
-					b = append(b, genRecord(r, n, cs.compr, true))
+				for ri, n := range bl {
+					rec := genRecord(r, n, cs.compr, true)
+					if cs.hiFill && bi == 0 && ri == 0 {
+						// the page buffer of a LiveReader keeps these bytes when it moves to the next page
+						if cs.compr == compression.None {
+							rec = bytes.Repeat([]byte{0xFF}, n)
+						} else {
+							rec = prngBytes(0xACE1, n)
+							for _, j := range cs.stale {
+								if j >= 0 && j < n {
+									rec[j] = 0xFF
+								}
+							}
+						}
+					}
+					b = append(b, rec)
 				}
 				logBatch(b)
 			}
@@ -529,6 +549,7 @@ func main() {
 		// live readers: one per segment, fed in pieces
 		var cutsG, liveG []string
 		nxl := 0
+		nstale := 0
 		for si, b := range files {
 			pts := map[int]bool{}
 			switch cs.cutMod {
@@ -565,6 +586,28 @@ func main() {
 					}
 					for p := len(b) - 100; p < len(b); p += 1 + r.Intn(6) {
 						pts[p] = true
+					}
+				}
+			case 6: // 1 byte (sometimes 2..6 bytes) into every fragment header: the reader must wait for the rest
+				offs := fragOffs[si]
+				step := 1
+				if len(offs) > 40 {
+					step = len(offs)/40 + 1
+				}
+				for k := 0; k < len(offs); k += step {
+					pts[offs[k]+1] = true
+					if r.Chance(1, 2) {
+						pts[offs[k]+int(r.Range(2, 6))] = true
+					}
+				}
+			}
+			for p := range pts {
+				// a release ending 1 byte into a header that is not at a page start, in a page whose
+				// predecessor left a byte >= 0x80 where the length field will be
+				for _, o := range fragOffs[si] {
+					if p == o+1 && o%P != 0 && o >= P && b[o+1-P] >= 0x80 {
+						meta.Hit("stale-high-header-cut")
+						nstale++
 					}
 				}
 			}
@@ -646,7 +689,7 @@ func main() {
 			meta.Nontrivial++
 		}
 		meta.Case(id, desc{Compr: cs.compr, PPS: cs.pps, Close: cs.close, Batches: batchLens, Cuts: cutNames[cs.cutMod],
-			NSeg: len(files), Shape: shape, Corpus: cs.corpus, Seed: f.Seed, Index: idx})
+			NSeg: len(files), Shape: shape, Corpus: cs.corpus, Seed: f.Seed, Index: idx, Stale: nstale})
 		meta.Evaluations++
 		id++
 	}
@@ -690,20 +733,43 @@ func main() {
 			idx++
 		}
 	}
+	// stale page-buffer content: page 0 of the segment is full of 0xFF (or of incompressible bytes with
+	// 0xFF where later length fields will sit); the LiveReader is then shown 1..6 bytes of every
+	// header of page 1 and must answer "not yet" rather than parse left-over bytes
+	staleAt := func(hdrOffs ...int) []int { // page offsets of headers -> payload indices of the filler
+		var js []int
+		for _, o := range hdrOffs {
+			js = append(js, o+1-hdr, o+2-hdr)
+		}
+		return js
+	}
+	for _, ct := range compression.Types() {
+		// page 1: headers at 0, 12, 28, 35, 62
+		runCase(idx, caseSpec{compr: ct, pps: 3, cutMod: 6, fixed: [][]int{{F}, {5}, {9}, {0}, {20, 3}}, isFixed: true,
+			hiFill: true, stale: staleAt(12, 28, 35, 62), corpus: "stale-buffer:exact-page"})
+		idx++
+		// the filler spills 100 bytes into page 1: headers at 0 (last fragment), 107, 121, 128
+		runCase(idx, caseSpec{compr: ct, pps: 2, close: true, cutMod: 6, fixed: [][]int{{F + 100}, {7}, {0}, {30}}, isFixed: true,
+			hiFill: true, stale: staleAt(107, 121, 128), corpus: "stale-buffer:spill"})
+		idx++
+	}
 	// a small log read byte by byte
 	runCase(idx, caseSpec{compr: compression.Snappy, pps: 1, close: false, cutMod: 4, fixed: [][]int{{3, 0, 20}, {60}, {1}}, isFixed: true, corpus: "bytewise-small"})
 	idx++
 
 	// ---- generated logs
-	n := f.Count(38, 450)
+	n := f.Count(34, 450)
 	for i := 0; i < n; i++ {
 		r := gen.Fork(f.Seed, 1000000+i)
 		cs := caseSpec{
 			compr:  compression.Types()[r.Intn(3)],
 			pps:    1 + r.Intn(4),
 			close:  r.Chance(1, 3),
-			cutMod: r.Intn(6),
+			cutMod: r.Intn(7),
 			small:  r.Chance(1, 3),
+		}
+		if r.Chance(1, 5) {
+			cs.cutMod = 6
 		}
 		if r.Chance(1, 8) { // occasionally a larger log
 			budget, cs.small = 150*1024, false
